@@ -365,8 +365,10 @@ def check_einfo(W, rec, tname, args, exc, einfo):
     if einfo.type is None or einfo.type.__name__ != tname:
         W.bad('C12.a', 'type-mismatch', 'job %r: record type %r, exception %s' % (rec.uid, einfo.type, tname))
     if tname not in POOL_MADE and not rec.opts.get('bad_arg') and tname != 'MaybeEncodingError':
-        if 'pooltask.py' not in (einfo.traceback or ''):
-            W.bad('C12.a', 'traceback-text-lacks-raising-frame', 'job %r: %.200r' % (rec.uid, einfo.traceback))
+        text = einfo.traceback or ''
+        # (every exception a task program raises itself comes from a `raise EXC[...]` line of pooltask.py)
+        if 'pooltask.py' not in text or (tname in T.EXC and tname != 'RecursionError' and 'raise EXC[' not in text):
+            W.bad('C12.a', 'traceback-text-lacks-raising-frame', 'job %r: %.200r' % (rec.uid, text[-300:]))
 
 
 def judge_imap(W, rec, ex, owners, cause):
@@ -584,6 +586,20 @@ def judge_C03(W, ex):
                 pend = None
             elif kind == DEATH:
                 pass
+        if pend is not None and w is not None and W.case['prop'] == 'C03':
+            # accepted, the task's program ended (returned or raised), and no result message followed although
+            # nobody signalled the worker: "exactly one result message" also holds for values that cannot be sent
+            prec = W.job_by_id.get(pend[0])
+            if prec is not None and prec.kind == 'apply':
+                ended = [d for d in ex.get(prec.uid, ()) if d['pid'] == pid and d['end'] is not None]
+                ds = w['proc'].death_step if w['proc'].dead else None
+                # (the parent answers a worker's DEATH notice with a termination signal: that one does not count)
+                bye = min([m[0] for m in msgs if m[2] == DEATH] + [ds if ds is not None else k.steps + 1])
+                signalled = any(e[2] in ('sig-pending', 'sigkill') and e[3] == pid and e[0] < bye for e in k.log)
+                if ended and not signalled and ds is not None and not any(tc['t0'][0] <= ds for tc in W.term_calls):
+                    bad('C03.a', 'task-ended-without-result', 'worker %d accepted job %r, its program ended (%s) and '
+                        'the worker exited with %r without sending a result' % (
+                            pid, prec.uid, ended[0]['exc'] or 'returned', w['proc'].status))
         # quota
         quota = pc.get('maxtasksperchild')
         if quota and w is not None:
